@@ -152,7 +152,8 @@ fn locale_of(i: usize) -> Locale {
         "ar" => Locale::ar,
         "ru" => Locale::ru,
         "pt" => Locale::pt,
-        _ => Locale::pt_PT,
+        "pt-PT" => Locale::pt_PT,
+        _ => Locale::th,
     }
 }
 
